@@ -203,6 +203,14 @@ def logger_tie():
                     "LoggerC10Proofs.v", "LoggerGen.")
 
 
+def series_tie():
+    """Market._fill_until (C06): chunked growth of the eight recorded series"""
+    import py2coq_series
+    src = os.path.join(REPO, "pams", "market.py")
+    return _run_tie("translator:pams/market.py(C06 storage)", src, lambda: py2coq_series.translate(REPO), "SeriesGen.v", "SeriesC06Proofs.v",
+                    "SeriesGen.")
+
+
 def holdings_sweep_c05(seed=0, tier="quick", cov=None):
     """directed search used with the C05 tie: the real Simulator._update_agents_for_execution on small populations and fill lists
     (self-trades, repeated parties, several markets), against the property text: the buyer pays price x volume and receives volume
